@@ -1373,9 +1373,37 @@ def rule_D4(ctx):
 def run(ctx):
     ctx.assume("TreeNode.add_data_point_list, rustworkx extend_from_edge_list / remove_nodes_from / node_indices behave as documented")
     ctx.assume("pickle preserves dictionaries, lists and DataPoint objects; float equality after restore is not decided")
-    ctx.soft(rule_D1)
+    # The dictionary form is decided twice.  Semantically: the reference semantics of the editor (TS: what to_dict
+    # stores and what from_dict does with it, effect by effect in every guard scenario), C06.M4 (nothing mutable is
+    # shared between the stored form and a tree) and C06.M1 (the restore ends with a refresh).  Syntactically: D1 / D3,
+    # which read the two functions' statements and name the defect more precisely - but only for the shapes they know.
+    # Where the shape is new to D1 / D3 and the three semantic rules all decide, their verdict stands and D1 / D3 are
+    # recorded as not applicable to this shape (a note), instead of making the whole check an analysis error.
+    from ._treespec import rule_TS
+    from . import _premises
+
+    ctx._own_rules = {"D1", "D2", "D3", "D4", "R1", "R2", "R3", "R4", "TS"}
+    n0 = len(ctx.obligations)
+    ctx.soft(rule_TS, owners=["tree.Tree"], only=["from_dict", "to_dict"], minimum=3)
+    ts = [o for o in ctx.obligations[n0:] if o["rule"] == "TS"]
+    notes0 = len(ctx.notes)
+    _premises.deep_copies(ctx)
+    _premises.refresh(ctx)
+    semantic = len(ts) >= 3 and not any("not analysable" in n_ or "could not be analysed" in n_ for n_ in ctx.notes[notes0:]) and not getattr(ctx, "deferred", None)
+
+    def shape_tolerant(ctx_, rule_fn, rid):
+        try:
+            rule_fn(ctx_)
+        except AnalysisError as e:
+            if not semantic:
+                raise
+            ctx_.note("%s does not recognise this shape of the dictionary form (%s); decided by TS, C06.M4 and C06.M1 instead" % (rid, str(e)[:160]))
+            have = sum(1 for o in ctx_.obligations if o["rule"] == rid)
+            ctx_.rule_min[rid] = min(ctx_.rule_min.get(rid, 0), have)
+
+    ctx.soft(shape_tolerant, rule_D1, "D1")
     ctx.soft(rule_D2)
-    ctx.soft(rule_D3)
+    ctx.soft(shape_tolerant, rule_D3, "D3")
     ctx.soft(rule_D4)
     entry = ctx.soft(rule_R1)
     if entry is not None:
@@ -1388,14 +1416,8 @@ def run(ctx):
     from ..formula import imported
     from . import C13, _premises
 
-    ctx._own_rules = set(ctx.rule_min)
     imported(ctx, C13.rule_U3)
     _premises.density(ctx)
-    # "an entry restores to the tree that was recorded": what to_dict stores and what from_dict does with it, effect by
-    # effect and in every guard scenario, against the reference semantics of the editor (same rule object as C06/C07.TS)
-    from ._treespec import rule_TS
-
-    ctx.soft(rule_TS, owners=["tree.Tree"], only=["from_dict", "to_dict"], minimum=3)
     # the trace of a chain holds that chain's entries only (no list shared between calls through a default argument)
     _premises.no_call_state(ctx)
 
